@@ -108,9 +108,17 @@ type Obs struct {
 	DCrds     int `json:"dCrds"` // CRD chunks of the IncludeCRDs renders
 	DEngine   int `json:"dEngine"`
 	DErr      int `json:"dErr"`
+	DErrText  int `json:"dErrText"` // distinct error messages (which file is blamed is part of the outcome)
 	// first render, parsed
 	Err      string      `json:"err"` // none | parse | exec | schema | other
 	ErrText  string      `json:"errText"`
+	ErrAt    int         `json:"errAt"` // rank of the template file the error message names (0 = none)
+	// same-object renders (one loaded *chart.Chart rendered again and again, also concurrently) and the render
+	// through a cluster-connected Configuration (--dry-run=server) equal the first fresh client-only render
+	ReuseSame bool   `json:"reuseSame"`
+	RouteSame bool   `json:"routeSame"`
+	ReuseDiff string `json:"reuseDiff"`
+	RouteDiff string `json:"routeDiff"`
 	Manifest []ManEntry  `json:"manifest"`
 	Hooks    []HookEntry `json:"hooks"`
 	Notes    string      `json:"notes"`
